@@ -249,6 +249,40 @@ def run_render_race(case):
     return {"mismatches": len(bad), "first": bad[0] if bad else None}
 
 
+def run_dialog(case):
+    """the library's own dialog screens: each line of the case is given to input() of one kept dialog object"""
+    from simpleline import App
+    from simpleline.render import adv_widgets as AW
+    from simpleline.render.screen import InputState
+    if not App.is_initialized(): App.initialize()
+    k = case["kind"]; asked = []
+    if k == "yesno": d = AW.YesNoDialog("question?"); state = lambda: d.answer
+    elif k == "password": d = AW.PasswordDialog(); state = lambda: d.answer
+    elif k == "help": d = AW.HelpScreen(None); state = lambda: None
+    elif k == "error": d = AW.ErrorDialog("boom"); state = lambda: None
+    else:
+        d = AW.GetInputScreen("value: "); state = lambda: d.value
+        def mk(kind):
+            def f(inp, args):
+                asked.append(kind)
+                return {"min_len": lambda: len(inp) >= args, "max_len": lambda: len(inp) <= args, "equals": lambda: inp == args, "differs": lambda: inp != args,
+                        "starts_with": lambda: inp[:1] == args}[kind]()
+            return f
+        for kind, a in case["conds"]: d.add_acceptance_condition(mk(kind), a)
+    names = {InputState.DISCARDED: "DISCARDED", InputState.PROCESSED_AND_CLOSE: "CLOSE", InputState.PROCESSED: "PROCESSED", InputState.PROCESSED_AND_REDRAW: "REDRAW"}
+    out = []
+    for key in case["keys"]:
+        del asked[:]
+        try:
+            r = d.input(None, key); r = names.get(r, repr(r))
+        except SystemExit as e:
+            r = "exit%r" % e.code
+        o = {"ret": r, "state": state()}
+        if k == "getinput": o["asked"] = len(asked)
+        out.append(o)
+    return out
+
+
 def run_prompt(case):
     from simpleline.input.input_handler import InputHandlerRequest
     p = Prompt(case["message"])
@@ -292,7 +326,7 @@ def run_paging(case):
 
 
 RUN = {"textseq": run_textseq, "text": run_text, "wrap": run_wrap, "int": run_int, "draw": run_draw, "write": run_write,
-       "tree": run_tree, "gridseq": run_gridseq, "keytree": run_keytree, "column": run_column, "render_race": run_render_race, "key": run_key, "prompt": run_prompt, "paging": run_paging}
+       "tree": run_tree, "gridseq": run_gridseq, "keytree": run_keytree, "column": run_column, "dialog": run_dialog, "render_race": run_render_race, "key": run_key, "prompt": run_prompt, "paging": run_paging}
 
 
 def run_impl(case):
